@@ -148,6 +148,9 @@ def correspondence(ctx):
                  "(through InTotoVerify and directly through Step.CheckCertConstraints / CertificateConstraint.Check); layouts and links whose map / list "
                  "members are null in single, pairwise and random combinations, each with a link accepted on the certificate path and on the public-key "
                  "path, verified from the dumped file and in memory, verdict compared with the twin that has {} / [] instead (DIFF = violation). "
+                 "hostile CA entries: rootcas / intermediatecas entries of layouts and sublayouts, and caller-supplied intermediate PEMs, that hold public or "
+                 "private keys (PKIX, PKCS1, PKCS8, SEC1), a certificate request, CERTIFICATE blocks with broken DER, two blocks, empty, text or 1 MiB blocks, "
+                 "through InTotoVerify, InTotoVerifyWithDirectory and LoadLayoutCertificates (the OK / ERR verdict is recorded with every case). "
                  "non-trivial = all; distinct = distinct input JSON. quick tier applies a random 3/4 of the mutations per slot.")
     if ctx.tier == 'thorough':
         corr.violations += _fuzz(ctx)
